@@ -21,6 +21,14 @@
 (* Every event also carries the projection of the retained SOURCE of the   *)
 (* last copy() / reverse_copy() / pickle round trip (slive, sdb, srdb):    *)
 (* it must stay exactly what the collection was when it was copied.        *)
+(* Failing calls: "read_fail" (input raises after k lines / tag_filter      *)
+(* raises while line k+1 is filtered; e.want = the injected exception),    *)
+(* "qread_fail" (truncated pickle of the collection e.lines) and "probe"    *)
+(* (any other call expected to raise, e.g. insert(pkg, None)): the          *)
+(* exception propagates and the object is left consistent -- unchanged or,  *)
+(* for reads, a line-prefix / the new collection.  With IOEnv.DEVQ = "1"    *)
+(* (open finding C20-qread-nonatomic only) a qread_fail may also leave the  *)
+(* new db with the old rdb (named deviation QReadBindsDbFirst, marker 2).   *)
 (* Batched: <<"ACCEPTED", tid>> for every trace explained completely.      *)
 (***************************************************************************)
 EXTENDS Debtags, IOUtils, TLCExt
@@ -28,6 +36,8 @@ EXTENDS Debtags, IOUtils, TLCExt
 Traces     == JsonDeserialize(IOEnv.TRACE_FILE)
 Diag       == IOEnv.TRACE_DIAG = "1"
 DevAllowed == IOEnv.DEV = "1"
+DevQAllowed == IOEnv.DEVQ = "1"
+FailOps    == {"read_fail", "qread_fail", "probe"}
 
 VARIABLES tid, l
 
@@ -103,6 +113,21 @@ QueriesOK(e, pre) ==
 
 CopyOps == {"copy", "reverse_copy", "pickle"}
 
+\* a failing call: the exception propagates, the object stays consistent
+FailureOK(e, pre, obs) ==
+   CASE e.op = "read_fail" ->
+           /\ e.exc = e.want
+           /\ obs \in IReadFailsAllowed(pre, JLines(e.lines), ToSet(e.drop), e.k)
+           /\ InverseOf(pre) => /\ InverseOf(obs)
+                                /\ AbsOf(obs) \in AReadFailsAllowed(AbsOf(pre), JLines(e.lines), ToSet(e.drop), e.k)
+     [] e.op = "qread_fail" ->
+           /\ e.exc # ""
+           /\ \/ obs \in {pre, IRead(JLines(e.lines), {})}
+              \/ DevQAllowed /\ obs = IQReadFails(pre, IRead(JLines(e.lines), {}), e.k, TRUE)
+     [] e.op = "probe" ->                       \* error type unspecified; a call that succeeds is unspecified too
+           IF InverseOf(pre) THEN InverseOf(obs) ELSE obs = pre
+DevQStep(e, pre, obs) == e.op = "qread_fail" /\ obs \notin {pre, IRead(JLines(e.lines), {})}
+
 TInit == /\ tid \in 1..Len(Traces)
          /\ l = 1
          /\ P = {} /\ T = {} /\ R = {} /\ db = NoDict /\ rdb = NoDict
@@ -114,6 +139,7 @@ TStep == /\ l <= Len(Tr.events)
                 obs == [db |-> ObsFn(e.db), rdb |-> ObsFn(e.rdb)]
             IN /\ NoDupKeys(e.db) /\ NoDupKeys(e.rdb)
                /\ IF Unspecified(e, pre) THEN TRUE
+                  ELSE IF e.op \in FailOps THEN FailureOK(e, pre, obs)
                   ELSE /\ e.exc = ""                                     \* no call of the domain raises
                        /\ IF e.op = "q" THEN obs = pre /\ QueriesOK(e, pre)
                           ELSE LET nom    == Nominal(e, pre)
@@ -131,8 +157,9 @@ TStep == /\ l <= Len(Tr.events)
                                /\ ObsFn(e.sdb) = src'.db /\ ObsFn(e.srdb) = src'.rdb
                /\ sabs' = AbsOf(src') /\ al' = al
                \* deviation marker, printed only for a step that is explained completely
-               /\ ((~Unspecified(e, pre) /\ e.op # "q" /\ DevAllowed /\ obs # Nominal(e, pre))
+               /\ ((~Unspecified(e, pre) /\ e.op \notin (FailOps \cup {"q"}) /\ DevAllowed /\ obs # Nominal(e, pre))
                       => PrintT(<<"AT", tid, l, 1>>))
+               /\ (DevQStep(e, pre, obs) => PrintT(<<"AT", tid, l, 2>>))
          /\ l' = l + 1 /\ UNCHANGED tid
          /\ (Diag => PrintT(<<"AT", tid, l, 0>>))
          /\ (l' = Len(Tr.events) + 1 => PrintT(<<"ACCEPTED", tid>>))
